@@ -13,9 +13,38 @@ import (
 
 func init() { register("C16", "proof", runC16) }
 
-// errCheckOf: for a write call, returns the extracted error value, the If that tests it and the
+// errCarriers: the values that hold a write's error — the extracted error itself and, transitively, every phi or
+// value-preserving conversion it flows into (an inlined helper hands its error back through such a phi).
+func errCarriers(ex ssa.Value) map[ssa.Value]bool {
+	out := map[ssa.Value]bool{ex: true}
+	work := []ssa.Value{ex}
+	for len(work) > 0 {
+		v := work[len(work)-1]
+		work = work[:len(work)-1]
+		if v.Referrers() == nil {
+			continue
+		}
+		for _, r := range *v.Referrers() {
+			switch x := r.(type) {
+			case *ssa.Phi:
+				if !out[x] {
+					out[x] = true
+					work = append(work, x)
+				}
+			case *ssa.ChangeInterface:
+				if !out[x] {
+					out[x] = true
+					work = append(work, x)
+				}
+			}
+		}
+	}
+	return out
+}
+
+// errCheckOf: for a write call, returns the error carriers, the If that tests the error and the
 // index of the successor taken when err != nil.
-func errCheckOf(ci ssa.CallInstruction) (errv ssa.Value, ifi *ssa.If, failSucc int, why string) {
+func errCheckOf(ci ssa.CallInstruction) (errv map[ssa.Value]bool, ifi *ssa.If, failSucc int, why string) {
 	v, ok := ci.(ssa.Value)
 	if !ok {
 		return nil, nil, 0, "call is a go/defer statement"
@@ -29,36 +58,95 @@ func errCheckOf(ci ssa.CallInstruction) (errv ssa.Value, ifi *ssa.If, failSucc i
 		if !ok || !types.Identical(ex.Type(), types.Universe.Lookup("error").Type()) {
 			continue
 		}
-		for _, r2 := range *ex.Referrers() {
-			bo, ok := r2.(*ssa.BinOp)
-			if !ok || (bo.Op != token.NEQ && bo.Op != token.EQL) {
+		car := errCarriers(ex)
+		// the nearest test: prefer one in the write's own block, else any
+		var best *ssa.If
+		bestK := 0
+		for cv := range car {
+			if cv.Referrers() == nil {
 				continue
 			}
-			var other ssa.Value = bo.Y
-			if bo.Y == ex {
-				other = bo.X
-			}
-			if c, ok := other.(*ssa.Const); !ok || !c.IsNil() {
-				continue
-			}
-			for _, r3 := range *bo.Referrers() {
-				if i, ok := r3.(*ssa.If); ok {
-					k := 0
-					if bo.Op == token.EQL {
-						k = 1
+			for _, r2 := range *cv.Referrers() {
+				bo, ok := r2.(*ssa.BinOp)
+				if !ok || (bo.Op != token.NEQ && bo.Op != token.EQL) {
+					continue
+				}
+				var other ssa.Value = bo.Y
+				if bo.Y == cv {
+					other = bo.X
+				}
+				if c, ok := other.(*ssa.Const); !ok || !c.IsNil() {
+					continue
+				}
+				for _, r3 := range *bo.Referrers() {
+					if i, ok := r3.(*ssa.If); ok {
+						k := 0
+						if bo.Op == token.EQL {
+							k = 1
+						}
+						if best == nil || i.Block() == ci.Block() || (best.Block() != ci.Block() && i.Block().Index < best.Block().Index) {
+							best, bestK = i, k
+						}
 					}
-					return ex, i, k, ""
 				}
 			}
 		}
-		return ex, nil, 0, "error result extracted but never compared with nil in a branch"
+		if best != nil {
+			return car, best, bestK, ""
+		}
+		return car, nil, 0, "error result extracted but never compared with nil in a branch"
 	}
 	return nil, nil, 0, "error result is dropped (never extracted)"
 }
 
+// writeToTest: every path from the instruction after `from` reaches block `to` without passing a destination write,
+// a return or the token loop header.
+func writeToTest(from ssa.Instruction, to *ssa.BasicBlock, header *ssa.BasicBlock, isWrite map[ssa.Instruction]bool) string {
+	b := from.Block()
+	after := false
+	for _, in := range b.Instrs {
+		if in == from {
+			after = true
+			continue
+		}
+		if after && isWrite[in] {
+			return "another destination write happens before the error is tested"
+		}
+	}
+	if b == to {
+		return ""
+	}
+	seen := map[*ssa.BasicBlock]bool{}
+	stack := append([]*ssa.BasicBlock(nil), b.Succs...)
+	for len(stack) > 0 {
+		x := stack[len(stack)-1]
+		stack = stack[:len(stack)-1]
+		if seen[x] || x == to {
+			continue
+		}
+		seen[x] = true
+		if x == header {
+			return "the token loop continues before the error is tested"
+		}
+		for _, in := range x.Instrs {
+			if isWrite[in] {
+				return "another destination write happens before the error is tested"
+			}
+			if _, ok := in.(*ssa.Return); ok {
+				return "the function can return before the error is tested"
+			}
+		}
+		if len(x.Succs) == 0 {
+			return "a path ends before the error is tested"
+		}
+		stack = append(stack, x.Succs...)
+	}
+	return ""
+}
+
 func runC16(c *Ctx) {
 	R := c.R
-	R.Rule("C16.R1", "every destination write's error result is extracted and tested against nil by the branch that ends the writing block, with no other destination write in between")
+	R.Rule("C16.R1", "every destination write's error result is extracted and tested against nil on every path from the write, before any other destination write, return or loop iteration")
 	R.Rule("C16.R2", "fail-stop: on the err != nil edge of a write the function returns that very error value; no destination write and no path back to the token loop is reachable from that edge")
 	R.Rule("C16.R3", "the writer does not escape: the io.Writer parameter (and its wrappers) is used only as the receiver of destination writes, in the stringWriter type assertion, or stored in the asStringWriter adapter")
 	R.Rule("C16.R4", "reader errors surface: after Tokenizer.Next()==ErrorToken the only `return nil` is guarded by Err()==io.EOF and every other return yields the Err() value; sanitizeWithBuff returns a fresh empty buffer on error; SanitizeReaderToWriter returns sanitize's error unchanged")
@@ -87,27 +175,12 @@ func runC16(c *Ctx) {
 			R.Fail("C16.R1", key, cons, pos, why)
 			continue
 		}
-		// the If must end the write's own block and no other write may sit between
-		if ifi.Block() != w.Call.Block() {
-			R.Fail("C16.R1", key, cons, pos, "error is tested in a different block than the write (other effects may intervene)")
+		// every path from the write leads to the test, with no other write, return or loop iteration in between
+		if why := writeToTest(w.Call, ifi.Block(), s.Header, isWrite); why != "" {
+			R.Fail("C16.R1", key, cons, pos, why)
 			continue
 		}
-		between := false
-		after := false
-		for _, in := range w.Call.Block().Instrs {
-			if in == w.Call {
-				after = true
-				continue
-			}
-			if after && isWrite[in] {
-				between = true
-			}
-		}
-		if between {
-			R.Fail("C16.R1", key, cons, pos, "another destination write happens before the error is tested")
-			continue
-		}
-		R.OK("C16.R1", key, cons, pos, "error extracted and tested against nil at the end of the writing block")
+		R.OK("C16.R1", key, cons, pos, "error extracted and tested against nil before anything else happens")
 		// R2
 		start := ifi.Block().Succs[failSucc]
 		seen := map[*ssa.BasicBlock]bool{}
@@ -131,7 +204,7 @@ func runC16(c *Ctx) {
 				}
 				if r, ok := in.(*ssa.Return); ok {
 					rets++
-					if len(r.Results) != 1 || r.Results[0] != errv {
+					if len(r.Results) != 1 || !errv[r.Results[0]] {
 						bad = "return at " + c.P.Pos(r.Pos()) + " does not return the write's error value"
 					}
 				}
